@@ -815,7 +815,11 @@ def read_back(path, victim, u, ids):
     from dulwich.repo import Repo
     out = {}
 
-    def q(key, fn):
+    asked = []
+
+    def q(key, fn, again=True):
+        if again:
+            asked.append((key, fn))
         try:
             out[key] = fn()
         except BAD_EXC as e:
@@ -830,7 +834,7 @@ def read_back(path, victim, u, ids):
         st = r.object_store
         if victim in ("pack", "idx", "loose", "midx"):
             for oid in ids:
-                q(("get_raw", oid), lambda: st.get_raw(oid))
+                q(("get_raw", oid), lambda oid=oid: st.get_raw(oid))
             q("iter", lambda: sorted(st))
             q("contains", lambda: [i in st for i in ids])
         elif victim == "index":
@@ -848,6 +852,10 @@ def read_back(path, victim, u, ids):
                         res.append((oid, tuple(pp.get_parents(oid))))
                 return res
             q("parents", parents)
+        # the same questions once more through the same handle: damage that
+        # was reported must not be forgotten by a cache filled on the way
+        for key, fn in list(asked):
+            q(("again", key), fn, again=False)
     finally:
         r.close()
     return out
@@ -905,6 +913,18 @@ def run_stored(plan, ctx, root):
             continue
         detected = False
         for key, val in got.items():
+            if isinstance(key, tuple) and key and key[0] == "again":
+                first = got.get(key[1])
+                k1 = key[1][0] if isinstance(key[1], tuple) else key[1]
+                if (isinstance(first, tuple) and first and first[0] == "EXC"
+                        and not (isinstance(val, tuple) and val and
+                                 val[0] in ("EXC", "BAD"))
+                        and val != good.get(key[1])):
+                    ctx.v(f"damage-reported-once-then-accepted/{victim}/{k1}",
+                          f"{label}: query {key[1]!r:.70} raised {first[1]} "
+                          f"the first time and answered {val!r:.100} the "
+                          f"second time through the same handle")
+                continue
             want = good.get(key)
             if isinstance(val, tuple) and val and val[0] == "BAD":
                 ctx.v(f"abnormal-exception/stored/{victim}/{val[1]}",
